@@ -1,8 +1,14 @@
 #!/bin/bash
-# builds the framework from files on disk only (offline)
+# builds the framework from files on disk only (offline) and warms the Go build cache
 set -e
 cd "$(dirname "$0")"
 export GOFLAGS=-mod=mod GOPROXY=off GOSUMDB=off GOTOOLCHAIN=local
 mkdir -p bin evidence replays
 go build -tags verif -o bin/vcheck ./cmd/vcheck
+go build -o bin/vinstr ./cmd/vinstr
+scratch=$(mktemp -d /tmp/verif-instr.XXXXXX)
+./bin/vinstr -repo /repo -rt "$(pwd)/_rt" -out "$scratch"
+go build -tags "verif instr" -overlay "$scratch/overlay.json" -o bin/vcheck-instr ./cmd/vcheck
+cp "$scratch/instrumentation.json" bin/instrumentation.json
+rm -rf "$scratch"
 echo setup ok
